@@ -2,6 +2,7 @@ package checks
 
 import (
 	"bytes"
+	"crypto/sha256"
 	"encoding/binary"
 	"encoding/json"
 	"fmt"
@@ -73,6 +74,25 @@ func (m *aolModel) clone() *aolModel {
 		n.Grants[k] = v
 	}
 	return n
+}
+
+func (m *aolModel) hash() []byte {
+	h := sha256.New()
+	for _, k := range sortedKeys(m.Topics) {
+		t := m.Topics[k]
+		fmt.Fprintf(h, "T%q/%q/%q;", t.Owner, t.Name, t.Desc)
+		for _, wk := range sortedKeys(t.Writers) {
+			fmt.Fprintf(h, "W%q=%+v;", wk, t.Writers[wk])
+		}
+		for i, r := range t.Records {
+			fmt.Fprintf(h, "R%d=%q/%q/%s/%d;", i, r.Key, r.Value, r.Writer, r.TS)
+		}
+	}
+	for _, k := range sortedKeys(m.Grants) {
+		fmt.Fprintf(h, "G%q;", k)
+	}
+	fmt.Fprintf(h, "U%v", m.Unmodelled)
+	return h.Sum(nil)
 }
 
 func (m *aolModel) topicsOf(owner []byte) []string {
@@ -398,6 +418,7 @@ func aolSystem(v aolVariant) *explore.System {
 	if !v.Forged {
 		sys.Stores = []string{"aol"}
 	}
+	sys.Extra = func(m any) []byte { return m.(*aolModel).hash() }
 	sys.OnStep = func(s *explore.Step) {
 		m := s.M.(*aolModel)
 		ts := world.BlockTime(s.W.Height).UnixNano()
